@@ -1001,6 +1001,21 @@ def gen_cf_programs(seed, n):
             body = body[:SL]
             slots.append(body + b"\x90" * (SL - len(body)))
         table = struct.pack("<Q", start + SL * rng.randrange(0, nslots)) + b"\x90" * 8
+        if rng.random() < 0.12 and nslots >= 4:
+            # one indirect jump executed twice in a row with different targets (must stay two entries):
+            # slot0: mov rdx, slot1 ; jmp slot2   slot1: mov rdx, slot3 (falls through)   slot2: jmp rdx
+            s0 = b"\x48\xba" + struct.pack("<Q", start + SL) + bytes([0xeb, (2 * SL - 12) & 0xff])
+            s1 = b"\x48\xba" + struct.pack("<Q", start + 3 * SL)
+            s2 = b"\xff\xe2"
+            for j, body in enumerate((s0, s1, s2)):
+                slots[j] = body + b"\x90" * (SL - len(body))
+            h("prog-indirect-chain")
+        if rng.random() < 0.10:
+            # a call followed by a return through a wild stack pointer: the return fails, nothing is popped
+            j = rng.randrange(nslots)
+            body = b"\x48\xbc" + struct.pack("<Q", rng.choice([0x500000, 0x7fff0000, 8])) + b"\xc3"
+            slots[j] = body + b"\x90" * (SL - len(body))
+            h("prog-wild-ret")
         prog = b"".join(slots) + table
         lines.append("case " + cid)
         lines.append("new %s %x %x" % (prog.hex(), start, start + SL * rng.randrange(0, min(2, nslots))))
